@@ -38,6 +38,7 @@ def opOfName (name : String) (extra : Sexp) : Option Op :=
   | "div" => some .div | "mod" => some .mod | "neg" => some .neg | "abs" => some .abs
   | "not" => some .not | "and" => some .and | "or" => some .or | "lt" => some .lt | "gt" => some .gt
   | "index" => some .index | "hasindex" => some .hasIndex | "length" => some .length
+  | "notequal" => some .notEqual | "le" => some .le | "ge" => some .ge
   | "getattr" => (Sexp.decStr extra).map Op.getAttr
   | "haselement" =>
     match extra with
